@@ -159,7 +159,8 @@ PROPS = {
     "C14": dict(
         lean_targets=["BB.Props.C14"],
         theorems=["BB.Props.C14.inv_step", "BB.Props.C14.bounded", "BB.Props.C14.exactly_once", "BB.Props.C14.queue_has_worker",
-                  "BB.Props.C14.finish_own_job", "BB.Props.C14.wait_sound", "BB.Props.C14.queued_not_stuck"],
+                  "BB.Props.C14.finish_own_job", "BB.Props.C14.wait_sound", "BB.Props.C14.queued_not_stuck", "BB.Props.C14.job_kept",
+                  "BB.Props.C14.mu_worker_step", "BB.Props.C14.queued_job_is_eventually_taken", "BB.Props.C14.demoRun_fair"],
         corr=[dict(family="workers", quick=100, thorough=3000, mismatch_is_violation=True, no_shrink=True,
                    nontrivial=has("target_shrinks_queue_nonempty", "exit_with_queue", "parallel_jobs"),
                    rule="workers: 2-6 free-running callers x 3-8 calls with mixed/decreasing counts and PRNG-perturbed job functions on one real Workers; "
@@ -169,8 +170,9 @@ PROPS = {
                         "at count 0); a run that does not terminate is reported; non-trivial = the target shrinks while the queue is non-empty, a worker exits "
                         "with a non-empty queue, >=2 jobs in parallel")],
         assumptions=["each critical section of Workers.mutex is one atomic step; job functions terminate",
-                     "liveness (no starvation) is proved as absence of stuck states with queued work (queued_not_stuck) plus the invariant queue != [] -> count >= 1; the leadsTo statement under fairness is not mechanised"],
-        open_statements=["no_starvation as a leadsTo theorem under weak fairness (only the enabledness invariant is proved)"],
+                     "no starvation (queued_job_is_eventually_taken) is a leads-to theorem for runs that are weakly fair for the worker steps, from the moment no new Call arrives"],
+        open_statements=["no starvation with infinitely many callers: under weak fairness alone it does not hold of the model (nor of the code: every worker may find itself "
+                         "surplus each time it looks while callers alternate a large and a small count); the theorem assumes that calls eventually stop arriving"],
     ),
     "C17": dict(
         lean_targets=["BB.Props.C17"],
